@@ -292,15 +292,22 @@ fn shapes(m: &Model, ctx: &mut Ctx) {
     };
     if let Some(f) = anchor_fn(m, ctx, "C18.shape", None, "format_sequence_or_set_members", Some("typescript")) {
         let p = f.sig.inputs.iter().filter_map(|a| match a { syn::FnArg::Typed(t) => Some(tok(&t.pat)), _ => None }).next().unwrap_or("se".into());
-        for ext in [None, Some(1usize)] {
+        let extra: Vec<String> = f.sig.inputs.iter().filter_map(|a| match a { syn::FnArg::Typed(t) => Some(tok(&t.pat)), _ => None }).skip(1).collect();
+        for (ext, implied) in [(None, false), (Some(1usize), false), (None, true), (Some(1usize), true)] {
+            if implied && extra.is_empty() {
+                continue; // a renderer without access to the module default: reported by the extensibility-implied rule below
+            }
             for (opts, want_marks) in [(vec!["Required"], vec![false]), (vec!["Optional", "Required", "Default"], vec![true, false, true]), (vec![], vec![])] {
-                let key = format!("ext={:?} members={:?}", ext, opts);
+                let key = format!("ext={:?} implied={} members={:?}", ext, implied, opts);
                 ctx.oblige("C18.shape", &key, true);
                 let mut se = BTreeMap::new();
                 se.insert("members".to_string(), Val::List(opts.iter().enumerate().map(|(i, o)| member(&format!("m-{}", i), o)).collect()));
                 se.insert("extensible".to_string(), ext.map(|e| Val::some(Val::int(e as i128))).unwrap_or(Val::none()));
                 let mut env = Env::new();
                 env.insert(p.clone(), Val::Ctor("SequenceOrSet".into(), vec![], se));
+                for x in &extra {
+                    env.insert(x.clone(), Val::Bool(implied));
+                }
                 match ev.eval_fn_body(&f.block, &mut env) {
                     Ok(Val::Str(s)) => {
                         let compact: String = s.chars().filter(|c| !c.is_whitespace()).collect();
@@ -308,12 +315,12 @@ fn shapes(m: &Model, ctx: &mut Ctx) {
                         for (i, q) in want_marks.iter().enumerate() {
                             want.push_str(&format!("m_{}{}:T,", i, if *q { "?" } else { "" }));
                         }
-                        if ext.is_some() {
+                        if ext.is_some() || implied {
                             want.push_str("[key:string]:any");
                         }
                         want.push('}');
                         if compact != want {
-                            let k = if compact.contains("[key:string]") != ext.is_some() { "index-signature" } else if compact.matches('?').count() != want.matches('?').count() { "optional-mark" } else { "member-list" };
+                            let k = if compact.contains("[key:string]") != (ext.is_some() || implied) { "index-signature" } else if compact.matches('?').count() != want.matches('?').count() { "optional-mark" } else { "member-list" };
                             ctx.violate("C18.shape", &format!("object:{}", k), &f.file, f.line, &format!("[{}] rendered `{}`, the JER shape is `{}`", key, compact, want));
                         }
                     }
@@ -331,6 +338,9 @@ fn shapes(m: &Model, ctx: &mut Ctx) {
             c.insert("options".to_string(), Val::List((0..n).map(|i| member(&format!("o-{}", i), "Required")).collect()));
             let mut env = Env::new();
             env.insert(p.clone(), Val::Ctor("Choice".into(), vec![], c));
+            for x in f.sig.inputs.iter().filter_map(|a| match a { syn::FnArg::Typed(t) => Some(tok(&t.pat)), _ => None }).skip(1) {
+                env.insert(x, Val::Bool(false));
+            }
             match ev.eval_fn_body(&f.block, &mut env) {
                 Ok(Val::Str(s)) => {
                     let compact: String = s.chars().filter(|c| !c.is_whitespace()).collect();
@@ -419,6 +429,9 @@ fn shapes(m: &Model, ctx: &mut Ctx) {
             ctx.oblige("C18.shape", &format!("type_to_tokens:{}", what), true);
             let mut env = Env::new();
             env.insert(p.clone(), v);
+            for x in f.sig.inputs.iter().filter_map(|a| match a { syn::FnArg::Typed(t) => Some(tok(&t.pat)), _ => None }).skip(1) {
+                env.insert(x, Val::Bool(false));
+            }
             match ev2.eval_fn_body(&f.block, &mut env) {
                 Ok(Val::Str(s)) => {
                     let compact: String = s.chars().filter(|c| !c.is_whitespace()).collect();
@@ -496,13 +509,44 @@ fn shapes(m: &Model, ctx: &mut Ctx) {
             ctx.violate("C18.shape", "array-template", &f.file, f.line, "SEQUENCE OF / SET OF must be rendered as an array type");
         }
     }
-    // EXTENSIBILITY IMPLIED
+    // EXTENSIBILITY IMPLIED: the module default reaches the renderers
     let gm = m.fns.iter().find(|f| f.name == "generate_module" && f.self_ty.as_deref() == Some("Typescript"));
     if let Some(gm) = gm {
         ctx.oblige("C18.shape", "extensibility-implied", true);
+        let has_field = m.find_struct("Typescript", Some("typescript")).map(|st| st.fields.iter().any(|(n, _, _)| n == "extensibility_environment")).unwrap_or(false);
         let reads_env = m.fns.iter().filter(|f| f.module.starts_with("generator::typescript")).any(|f| tok(&f.block).contains("extensibility_environment"));
-        if !reads_env {
+        if !reads_env || !has_field {
             ctx.violate("C18.shape", "extensibility-implied-ignored", &gm.file, gm.line, "no fn of the TypeScript backend reads the module's extensibility default: in an EXTENSIBILITY IMPLIED module SEQUENCE/SET types without a marker get no index signature");
+        } else {
+            // the field is reset from the module's own header before anything is rendered (as for the rasn backend)
+            reset_rule_for(m, ctx, "C18.env", "extensibility_environment", "Typescript");
+            // every call of a renderer that takes the flag passes the backend's flag (not a constant)
+            let takes_flag: Vec<String> = m.fns.iter().filter(|f| f.module.starts_with("generator::typescript") && f.self_ty.is_none() && f.sig.inputs.iter().any(|a| matches!(a, syn::FnArg::Typed(t) if tok(&t.ty) == "bool"))).map(|f| f.name.clone()).collect();
+            let mut sites = 0;
+            for f in m.fns.iter().filter(|f| f.module.starts_with("generator::typescript") && !f.module.contains("tests")) {
+                let own_flag: Vec<String> = f.sig.inputs.iter().filter_map(|a| match a { syn::FnArg::Typed(t) if tok(&t.ty) == "bool" => Some(tok(&t.pat)), _ => None }).collect();
+                for c in model::calls_in(&f.block) {
+                    let n = model::callee_name(&c).unwrap_or_default();
+                    if !takes_flag.contains(&n) {
+                        continue;
+                    }
+                    sites += 1;
+                    let last = c.args.iter().last().map(|a| tok(a)).unwrap_or_default();
+                    let ok = own_flag.contains(&last) || last == "self.extensibility_implied()" || last.contains("self.extensibility_environment");
+                    ctx.oblige("C18.shape", &format!("implied-flag:{}->{}", f.name, n), true);
+                    if !ok {
+                        ctx.violate("C18.shape", &format!("implied-flag-not-passed-on:{}->{}", f.name, n), &f.file, model::line_of(syn::spanned::Spanned::span(&c)),
+                            &format!("{} calls {}(.., {}): the module's EXTENSIBILITY IMPLIED default must be handed on unchanged (nested anonymous SEQUENCE / SET types are extensible too)", f.name, n, last));
+                    }
+                }
+            }
+            ctx.floor("C18.shape/implied-flag-call-sites", sites, 7);
+            if let Some(h) = m.fns.iter().find(|f| f.name == "extensibility_implied" && f.self_ty.as_deref() == Some("Typescript")) {
+                ctx.oblige("C18.shape", "extensibility_implied()", true);
+                if tok(&h.block) != "{self.extensibility_environment==ExtensibilityEnvironment::Implied}" {
+                    ctx.violate("C18.shape", "extensibility_implied()", &h.file, h.line, "extensibility_implied() must be `self.extensibility_environment == ExtensibilityEnvironment::Implied`");
+                }
+            }
         }
     }
     ctx.sample(json!({"shape_checks": ["object members/optional marks/index signature", "choice union", "enum members", "array template"]}));
